@@ -184,8 +184,9 @@ def run(ck: Check):
                       "annotations, debug info, encoded arrays, call sites, method handles and hidden-api data the dependency table "
                       "stays the code's own claim, validated by dexperm")
     ck.partial.append("parse_perm_invariant assumes the decidable hypothesis sameItems (no item decodes differently after the map list "
-                      "was rewritten); no geometric criterion (items disjoint from the map list) is derived; parse_perm_needs_items "
-                      "shows the hypothesis is necessary")
+                      "was rewritten); parse_perm_invariant_disjoint derives it from the geometry of the original file except for an "
+                      "item section that starts below the map list and fails to decode; parse_perm_needs_items shows the hypothesis "
+                      "is necessary")
     ck.assumptions += ["Python's sorted() is stable (modelled as insertion sort); dict/OrderedDict iteration is insertion order",
                        "maps with duplicate types are outside the hypothesis (reported in notes, not judged)"]
 
